@@ -14,6 +14,7 @@ from harness.props.c01 import compare_load, load_outcome
 from harness.props.c05 import plain_doc
 from harness.props import v1streams
 from harness.props import c12_hist
+from harness.props import c12_tag
 
 SETTINGS = {
     'key_transform_with_dump': ['SNAKE', 'PASCAL'],
@@ -605,6 +606,9 @@ def run_v1(ctx: C.Ctx):
     rule = ctx.rule
     c12_hist.run_shared_v1(ctx, v1streams.sub_rng(ctx, 'v1-shared'))
     ctx.rule = rule + ' ' + c12_hist.RULE_V1
+    # ---- a nested class with a tag / tag key / unknown-key policy of its own (generator of its own)
+    c12_tag.run_tagged_v1(ctx, v1streams.sub_rng(ctx, 'v1-tagged'))
+    ctx.rule += ' ' + c12_tag.RULE_V1
     if ctx.model_available:
         outs = ctx.driver.run(reqs)
         for (case, out, built), o_ in zip(pend, outs):
